@@ -143,6 +143,8 @@ def tail_read(t):
     return "+" not in u or len(u.split("+")[0]) <= 9
 
 
+# the suffixes after which the minute and date-only forms are read (Lean: `Suffix.dropped`)
+DROPPED_SUFFIXES = ("none", "z", "plus", "plusb", "plush")
 LISTED_TAIL = re.compile(r"^(\.[0-9]{1,9})?(Z|[+-][0-9]{2}(:?[0-9]{2})?)?$")
 
 
@@ -409,11 +411,17 @@ def expected(c, v):
         y, m, d, H, M, S, us = c["dt"]
         if c["form"] == "sec":
             return ("value", [y, m, d, H, M, S, 0])
-        if c["suffix"][0] != "none":
-            return ("any",)  # suffixes on the minute/date forms are not part of the statement
+        if c["suffix"][0] not in DROPPED_SUFFIXES:
+            # -HH:MM / -HHMM / -HH after the minute / date-only form: the unchanged parser does not read them (minute form: None;
+            # 'YYYY-MM-DD-05:00' is 16 characters and reads 05:00) - documented boundary (theorems minute_form_tails / date_form_tails)
+            return ("any",)
+        # "with a trailing Z or a numeric offset" crossed with "the minute-precision and date-only forms return the corresponding
+        # minute and midnight" (quantifier: "crossed with separator / fraction / suffix / encoding variants"): the Z strip and the
+        # '+' split come in front of the choice of the form, theorems minute_form / date_form (Suffix.dropped)
+        sfx = "" if c["suffix"][0] == "none" else " followed by Z / +offset"
         if c["form"] == "min":
-            return ("value", [y, m, d, H, M, 0, 0])
-        return ("value", [y, m, d, 0, 0, 0, 0])
+            return ("value", [y, m, d, H, M, 0, 0], "the minute-precision form%s does not return that minute" % sfx)
+        return ("value", [y, m, d, 0, 0, 0, 0], "the date-only form%s does not return midnight" % sfx)
     if k == "isotail":
         t = c["tail"]
         if LISTED_TAIL.match(t) and tail_read(t):
@@ -495,6 +503,8 @@ def check(exp, out):
     if exp[0] == "epoch" and out != ["value", exp[1]]:
         return "integer input (int, numpy.int64: the integer classes the parser's table admits) not read as Unix seconds in UTC"
     if exp[0] == "value" and out != ["value", exp[1]]:
+        if len(exp) > 2:
+            return "round trip: " + exp[2]
         return "round trip: the parsed value is not the rendered date-time (whole seconds)"
     if exp[0] == "none" and out != ["none"]:
         return "input that is not a date yields a value instead of None"
@@ -666,7 +676,8 @@ def evaluate(ctx, cases):
                 c_min = shrink(c, still)
             v2 = value_of(c_min)
             o2 = impl_all(c_min, v2)
-            ctx.fail(c_min, oracle(c_min, v2, o2) or clause, impl=o2, model=m if c_min is c else None)
+            ctx.fail(c_min, oracle(c_min, v2, o2) or clause, impl=o2, model=m if c_min is c else None,
+                     detail={"input": repr(v2)[:120]} if c_min["kind"] in ("iso", "isotail") else None)
             continue
         if "parse" in m:
             mp = m["parse"]
@@ -738,6 +749,27 @@ def iso_cases(ctx, n_dt, casts_every=7):
                 yield {"kind": "iso", "form": "min", "dt": dt, "sep": sep, "k": 0, "suffix": suf, "enc": "bytes" if i % 2 else "str", "casts": i % 5 == 0}
         for suf in SUFFIXES(rng):
             yield {"kind": "iso", "form": "date", "dt": dt, "sep": "T", "k": 0, "suffix": suf, "enc": "bytes" if i % 2 else "str", "casts": True}
+
+
+GRID_DAYS = [[2024, 2, 29, 12, 34, 56, 789012], [1, 1, 1, 0, 0, 0, 0], [9999, 12, 31, 23, 59, 59, 999999], [1970, 1, 1, 0, 0, 0, 1]]
+GRID_SUFFIXES = [["none"], ["z"], ["plus", 1, 0], ["plusb", 1, 0], ["plush", 1], ["plus", 0, 0], ["plus", 14, 59], ["plusb", 5, 30],
+                 ["minus", 5, 0], ["minusb", 5, 30], ["minush", 12], ["minus", 0, 0]]
+
+
+def grid_cases(ctx):
+    """Deterministic and exhaustive on every run (and again in `intensify`): EVERY layout of a canonical rendering - date-only,
+    minute form (T / space), seconds form (T / space) without and with a fraction of 1 / 3 / 6 digits - crossed with EVERY tail
+    (none, Z, +HH:MM, +HHMM, +HH, -HH:MM, -HHMM, -HH) and both encodings (str, UTF-8 bytes), each through the parser and the three
+    casts.  Four fixed days (a leap day, both ends of the range, the epoch) and one day of this run.  Simplest layouts first, so the
+    first failing case of a clause is a small one."""
+    days = GRID_DAYS + [rand_dt(ctx.rng)]
+    layouts = [("date", "T", 0), ("min", "T", 0), ("min", " ", 0)] + [("sec", sep, k) for k in (0, 1, 3, 6) for sep in ("T", " ")]
+    for dt in days:
+        for form, sep, k in layouts:
+            for suf in GRID_SUFFIXES:
+                for enc in ("str", "bytes"):
+                    ctx.hit("grid:%s:%s%s" % (form, suf[0], ":frac" if k else ""))
+                    yield {"kind": "iso", "form": form, "dt": dt, "sep": sep, "k": k, "suffix": suf, "enc": enc, "casts": True}
 
 
 EPOCH_EDGES = [0, 1, -1, MIN_EPOCH, MIN_EPOCH - 1, MIN_EPOCH + 1, MAX_EPOCH, MAX_EPOCH + 1, MAX_EPOCH - 1, 2**31 - 1, 2**31, -(2**31),
@@ -1191,6 +1223,7 @@ def run(ctx):
     for ymd in ([(1970, 1, 1), (1, 1, 1), (9999, 12, 31), (2024, 2, 29)] if ctx.tier == "thorough" else [(1969, 12, 31)]):
         sweep_seconds(ctx, ymd, 1 if ctx.tier == "thorough" else 7)
     # 2. variants, epochs, natives, objects, malformed text
+    batches(ctx, grid_cases(ctx))
     batches(ctx, object_cases(ctx))
     batches(ctx, epoch_cases(ctx, ctx.scale(5000, 40000)))
     batches(ctx, native_cases(ctx, ctx.scale(1000, 8000)))
@@ -1208,6 +1241,7 @@ def run(ctx):
 
 
 def intensify(ctx):
+    batches(ctx, grid_cases(ctx))
     batches(ctx, tail_cases(ctx, 10000))
     batches(ctx, text_cases(ctx, 20000))
     batches(ctx, epoch_cases(ctx, 10000))
